@@ -174,8 +174,8 @@ EXTRA = {
     'C02': ' Rounds 3-4: placeholder-vs-test coherence of the star slots across embed/_Merger, stale forwarded-stars operand, roles of the switches from the call site, and (C02.R7) the tables of the pairwise merger embed uses. Round 5: one-shot iterators as buckets, accumulator read by position (C02.R5b). Round 7: identity comparison of the empty marker (C02.R8), validating construction in the converting try (C02.R9).',
     'C03': ' Rounds 3-4: neutral defaults of the switches relied on inside the package (C03.R5d), buckets created by the classification (C03.R6), an emptied parameter list stays empty through replace (C03.R7), input-fact guards in the per-name table, early returns of _mask only as the identity when nothing is asked. Round 7: no raise decision of _mask depends on a hide flag (C03.R8, D37; the table rows that had the flags first were removed), absorbed-partial row split on a name collision (D38), positional-only names go to **kwargs (D58).',
     'C04': ' Rounds 3-4: merger tables (C04.R6m/n), early-return rule of _mask, universal safe_get table (C04.R4c). Later: dispatch table of set_signature_forger (C04.R4e), update_wrapper source.',
-    'C05': ' Rounds 3-4: definition-time expressions visited in the enclosing scope (C05.R3b), star arguments resolved after explicit ones, the composed algebra\'s soundness columns (C05.R10). Round 5: two traversals of loop bodies (D29), every recorded call re-evaluated against late taints (D28), pre-scan helper exhaustive while relied upon (C05.R4b). Round 6: re-evaluation table (C05.R9c), enclosing lookup (C05.R9d). Round 7: comprehension back-edge (C05.R4, D40), visit_Attribute traverses its object and taints a parameter it is taken from (C05.R11, D41), globals merely read may be kept (C05.R5).',
-    'C06': ' Rounds 3-4: get_ast decides by __code__ not by type (C06.R4b), resolution order table (C06.R8). Round 5: drain order of the deferred calls, empty closure cell vs not-free. Later: known arguments threaded by name (C06.R9), subject search (C06.R4c). Round 7: attribute handler (C06.R10), the object of an attribute access is visited once (C06.R10b), reading a global keeps it (C06.R6, D44), partial\'s function taken from the explicit arguments (C06.R11, known D51).',
+    'C05': ' Rounds 3-4: definition-time expressions visited in the enclosing scope (C05.R3b), star arguments resolved after explicit ones, the composed algebra\'s soundness columns (C05.R10). Round 5: two traversals of loop bodies (D29), every recorded call re-evaluated against late taints (D28), pre-scan helper exhaustive while relied upon (C05.R4b). Round 6: re-evaluation table (C05.R9c), enclosing lookup (C05.R9d). Round 7: comprehension back-edge (C05.R4, D40), visit_Attribute traverses its object and taints a parameter it is taken from (C05.R11, D41), globals merely read may be kept (C05.R5), operands of several star arguments are visited (C05.R12), generator expressions are lazy (C05.R13), nothing is visited before the comprehension mark (D40b).',
+    'C06': ' Rounds 3-4: get_ast decides by __code__ not by type (C06.R4b), resolution order table (C06.R8). Round 5: drain order of the deferred calls, empty closure cell vs not-free. Later: known arguments threaded by name (C06.R9), subject search (C06.R4c). Round 7: attribute handler (C06.R10), the object of an attribute access is visited once (C06.R10b), reading a global keeps it (C06.R6, D44), partial\'s function taken from the explicit arguments (C06.R11, known D51), only the star parameters are tainted by an attribute read (D41c).',
     'C07': ' Rounds 3-4: nullable AST children tested before visiting (C07.R9), no subscripting of __builtins__ (C07.R7b), LBYL probes counted. Round 5: implicit AttributeError sources through the escape analysis (C07.R4b), partial provenance-map lookups (C07.R10). Later: definite assignment of locals over the retrieval closure (C07.R11), output protocol of the Sphinx hook (C07.R5d). Round 6: index guards (C07.R12), the subject is not hashed (C07.R13, known finding D34), two wrong review entries removed (D33 fixed). Round 7: operations on resolved live values are handled (C07.R14, D50), the autodoc hook is total and binds callables only (C07.R15, D49).',
     'C08': ' Rounds 3-4: merge_depths writes under membership and comparison, bookkeeping table B6 per flags, early returns of _mask in partial mode. Round 5: removals from the united provenance map. Round 7: replace(parameters=) restricts the provenance map (C08.R8, D47), depth increment past the forwarding callable (C08.R5, D48), provenance of what hide_args removes.',
     'C09': ' Rounds 3-4: fold law read off merge() (C09.R4f), replace takes base-class overrides as given (C09.R2b), star-name column.',
